@@ -1,0 +1,36 @@
+//go:build verif
+
+package storagesc
+
+// Machine-checked contracts for /verif/govc (contract-based deductive verification).
+// This file contains comments only; it is compiled only with -tags verif and adds no code.
+
+// ---------------------------------------------------------------- kill / shut down a provider (C23)
+// The storage contract hands provider.Kill / provider.ShutDown the transaction's sender as the
+// caller, the configured contract owner as the owner, and the configured slash fraction (half of
+// it for a voluntary shutdown).
+
+//@ func getConfig
+//@   trusted
+//@   ensures result1 == nil ==> result0 != nil
+//@   modifies nothing
+
+//@ func (*StorageSmartContract).killBlobber
+//@   prop C23
+//@   requires tx != nil
+//@   at-call Kill assert[caller-owner-fraction] $arg1 == tx.ClientID && $arg2 == conf.OwnerId && $arg3 == conf.StakePool.KillSlash
+
+//@ func (*StorageSmartContract).killValidator
+//@   prop C23
+//@   requires tx != nil
+//@   at-call Kill assert[caller-owner-fraction] $arg1 == tx.ClientID && $arg2 == conf.OwnerId && $arg3 == conf.StakePool.KillSlash
+
+//@ func (*StorageSmartContract).shutdownBlobber
+//@   prop C23
+//@   requires tx != nil
+//@   at-call ShutDown assert[caller-owner] $arg1 == tx.ClientID && $arg2 == conf.OwnerId
+
+//@ func (*StorageSmartContract).shutdownValidator
+//@   prop C23
+//@   requires tx != nil
+//@   at-call ShutDown assert[caller-owner] $arg1 == tx.ClientID && $arg2 == conf.OwnerId
